@@ -109,8 +109,9 @@ def run(vc):
              "numpy element-wise / broadcasting semantics, np.max(axis) over a constant number of columns (A-NUMPY)")
     vc.assume_std("A-REAL", "A-GENERIC", "A-LOOKUP", "A-NUMPY")
     run_results(vc)
-    from contracts import C02_build
+    from contracts import C02_build, C02_trafo
     C02_build.run(vc)
+    C02_trafo.run(vc)
 
 
 def run_results(vc):
